@@ -623,13 +623,16 @@ func ModelsFor(typ string, names ...string) []byte {
 // Worker processes run side by side and create and drop listeners at a high rate. Ports taken from
 // the kernel's ephemeral range get recycled between processes (and collide with outbound source
 // ports), which lets one worker's traffic reach another worker's listener. Every worker therefore
-// allocates from its own slice of a range below the ephemeral one.
+// allocates from its own block of a range below the ephemeral one, and claims that block exclusively
+// (two runs of the checks side by side - e.g. a quick and a thorough one - must not share blocks either).
 
 var (
-	portMu   sync.Mutex
-	portBase = 20000
-	portSpan = 700
-	portNext = 0
+	portMu    sync.Mutex
+	portBase  = 0 // claimed on first use
+	portSpan  = 200
+	portNext  = 1 // offset 0 is the guard
+	portGuard net.Listener
+	portShard = 0
 )
 
 func init() {
@@ -637,17 +640,38 @@ func init() {
 		if (a == "-shard" || a == "--shard") && i+1 < len(os.Args) {
 			var sh, n int
 			fmt.Sscanf(os.Args[i+1], "%d/%d", &sh, &n)
-			portBase = 20000 + (sh%16)*portSpan
+			portShard = sh
 		}
 	}
 }
 
-// ListenOwn listens on the next free port of this worker's private range.
+// claimBlock makes one block of the range 20000..32767 this process's own for its lifetime: the block's first
+// port is bound and held as a guard, so no other worker process - of this run or of another run of the checks
+// going on at the same time on this machine - allocates from the same block.
+func claimBlock() {
+	const lo, hi = 20000, 32768
+	nblocks := (hi - lo) / portSpan
+	start := (portShard * 3) % nblocks
+	for k := 0; k < nblocks; k++ {
+		base := lo + ((start+k)%nblocks)*portSpan
+		ln, err := net.Listen("tcp", fmt.Sprintf("127.0.0.1:%d", base))
+		if err == nil {
+			portGuard, portBase = ln, base
+			return
+		}
+	}
+	panic("stack: no free port block (too many concurrent runs of the checks on this machine)")
+}
+
+// ListenOwn listens on the next free port of this worker's private block.
 func ListenOwn() net.Listener {
 	portMu.Lock()
 	defer portMu.Unlock()
+	if portBase == 0 {
+		claimBlock()
+	}
 	for tries := 0; tries < 2*portSpan; tries++ {
-		p := portBase + portNext%portSpan
+		p := portBase + 1 + portNext%(portSpan-1)
 		portNext++
 		ln, err := net.Listen("tcp", fmt.Sprintf("127.0.0.1:%d", p))
 		if err == nil {
